@@ -13,6 +13,7 @@ macro_rules! dispatch {
         match $id {
             "C01" => { let $w = &ledger::determinism::C01; $body }
             "C07" => { let $w = &ledger::c07::C07; $body }
+            "C08" => { let $w = &ledger::auth::C08; $body }
             "C09" => { let pw = ledger::programs::Programs { id: "C09" }; let $w = &pw; $body }
             "C10" => { let pw = ledger::programs::Programs { id: "C10" }; let $w = &pw; $body }
             "C36" => { let pw = ledger::programs::Programs { id: "C36" }; let $w = &pw; $body }
@@ -44,7 +45,7 @@ macro_rules! dispatch {
     };
 }
 
-pub const ALL: &[&str] = &["C01", "C02", "C03", "C04", "C05", "C06", "C07", "C09", "C10", "C11", "C12", "C13", "C14", "C15", "C17", "C18", "C19", "C32", "C33", "C36", "C39", "C40", "C41", "C42", "C43", "C44", "C51"];
+pub const ALL: &[&str] = &["C01", "C02", "C03", "C04", "C05", "C06", "C07", "C08", "C09", "C10", "C11", "C12", "C13", "C14", "C15", "C17", "C18", "C19", "C32", "C33", "C36", "C39", "C40", "C41", "C42", "C43", "C44", "C51"];
 
 fn usage() -> i32 {
     eprintln!("usage: verif-sim check <ID> [quick|thorough] | replay <file> | selftest [runs] | list");
